@@ -50,7 +50,7 @@ def resolve_file(f):
             .replace('{clastic}', os.path.dirname(clastic.__file__)))
 
 
-PATHS = ['/', '/x/y', '/clastic_assets/nope', '/a//b/', '/%3Cb%3E', '/clastic_assets/..', '/clastic_assets/../flaw.py',
+PATHS = ['/%0A', '/x%0A', '/%0D%0A', '/', '/x/y', '/clastic_assets/nope', '/a//b/', '/%3Cb%3E', '/clastic_assets/..', '/clastic_assets/../flaw.py',
          '/clastic_assets/x/../../y', '/clastic_assets//etc/hosts', '/clastic_assets/..hidden', '/clastic_assets/', '/clastic_assets',
          '/clastic_assets/common.css/', '/clastic_assets/%2e%2e/%2e%2e/setup.py']
 
